@@ -256,6 +256,53 @@ PROPS = {
         note="Crashes/hangs inside the ANTLR C++ runtime (deep nesting, malformed UTF-8) and whether reported positions lie inside "
              "the input are not decided; bindings.cpp is analysed as text. 32 bare `raise NotImplementedError` sites behind tests on "
              "optional parts are counted, not decided. Eight known findings (built-in exceptions for grammar-valid constructs)."),
+    "C03": dict(
+        claimed=True, design="§3 C03",
+        technique="typed field-read inventory of the SQL transpiler for Aggregation; paired-field rule (grouping/grouping_op); CFG must-reach of the translated having condition to the builder's HAVING in both aggregation paths; def-use provenance of the group-identifier lists (operand structure vs statement output structure); who-may-call rule (no WHERE on the aggregating builder); registry templates vs the grammar's aggregate operators (same-name rule)",
+        text="Decides the structural clauses of aggregation: no part of the aggregation syntax is ignored by the SQL generation; the "
+             "grouping list is interpreted with its by/except/all operator; a having condition cannot be dropped on any path; the "
+             "identifiers that define the groups come from the operand and the grouping clause, not from the statement's final "
+             "structure; no row filter precedes GROUP BY (groups cannot disappear); each of the ten aggregate operators is the SQL "
+             "aggregate of the same name. Does not decide the aggregate values DuckDB computes.",
+        note="Known finding: the no-grouping branch of the aggr clause uses the statement's output structure (nested use fails with a raw "
+             "DuckDB error). Null handling inside DuckDB's aggregates is trusted."),
+    "C04": dict(
+        claimed=True, design="§3 C04",
+        technique="typed field-read inventory for JoinOp/NvlJoinPair; constant folding of the join-keyword expression over the grammar's join tokens; sibling-site agreement in visit_JoinOp (FULL JOIN key coalescing in SELECT and ON; nvl defaults in every projection branch); CFG rule on the per-statement reset of join scratch state with wrapper summaries; restoring-context-manager rule for attribute rebinding",
+        text="Decides the structural clauses of joins: using / nvl / every clause are consumed; the four join operators select four "
+             "different SQL joins; full-join keys are coalesced across the joined operands wherever the joined side is referenced; "
+             "join scratch state cannot leak from one statement into the next; nvl defaults apply in every projection branch. Found "
+             "and repaired: three-way full_join duplicated keys. Does not decide which rows DuckDB's join returns for the ON clause.",
+        note="The choice of the left-hand alias of ON clauses for inner/left joins is not decided (seeded change C04_1 is missed)."),
+    "C06": dict(
+        claimed=True, design="§3 C06",
+        technique="typed field-read inventory for Analytic/Windowing/OrderBy; paired-field rule (partition_by/partition_op, bounds/modes); guard-emission pairing on the CFG of the OVER-clause builder (strict ORDER BY guard); registry templates vs the grammar's analytic operators (same-name rule, sibling shape agreement); evaluation of the window-bound formatter over all bound shapes",
+        text="Decides the structural clauses of analytic invocations: partition, order, window and parameters all reach the OVER "
+             "clause; `partition except` is honoured wherever the partition is used; ORDER BY is emitted exactly when the script "
+             "has an order by and the frame exactly when it has a window; every analytic operator is the SQL window function of the "
+             "same name with no null/duplicate modifiers and sibling operators agree; window types and bounds are mapped as VTL "
+             "defines them. Does not decide the values DuckDB computes over a given OVER clause.",
+        note="Analytic without order by (frame without ORDER BY) is reported under C15/C33, since C06 speaks about total orderings."),
+    "C07": dict(
+        claimed=True, design="§3 C07",
+        technique="typed field-read inventory for the validation node classes; enum-member vs comparison-constant coverage of the mode dispatch; alias analysis from the ruleset/operator registries to mutation sites (interprocedural over transpiler methods); reader/writer agreement on the hierarchy pivot's presence columns; exact three-valued evaluation of the parsed SQL that filters invalid rows and gates errorcode/errorlevel",
+        text="Decides the structural clauses of validation: error codes/levels, imbalance, output and validation modes are all consumed; "
+             "every validation mode is dispatched and zero substitution is tied to absence of a code item in exactly the *_zero modes; "
+             "no statement can edit the ruleset definitions that later statements use; for check, check_datapoint and "
+             "check_hierarchy the invalid-mode filter and the errorcode/errorlevel gating select exactly the FALSE outcome of a rule "
+             "(truth tables over TRUE/FALSE/NULL, and over when/then outcomes). Does not decide the rule expressions' values or "
+             "hierarchy's rule ordering.",
+        note="SQL three-valued logic is an oracle in the checker. check_datapoint `components` is validated semantically only (reasoned exemption)."),
+    "C28": dict(
+        claimed=True, design="§3 C28",
+        technique="CFG must-pass-through on the interpreter's statement loop (1-3-3-6 before store); def-use from ViralPropagationDef fields to the rule constructor and rule-field read inventory; table extraction (_AGG_BINARY/_AGG_GROUP vs grammar tokens); exact rational evaluation of the parsed two-operand SQL forms for associativity/commutativity vs the N-ary fold; structural order of CASE arms; order lint + paired-field rule for the group/window forms; call-site inventory of vp_* helpers per operator handler",
+        text="Decides the structural clauses of viral propagation: a result with a rule-less viral attribute cannot be stored; every "
+             "part of a rule definition reaches the SQL generation; the four aggregate functions are in both tables and a two-operand "
+             "form folded over N operands is associative and commutative or has its own N-ary form; two-value clauses are tested "
+             "before one-value clauses; partition-only windows honour partition_op; the helpers are applied in binary, aggregation, "
+             "join and analytic handlers and not in clauses or set operators. Found and repaired: avg folded pairwise over 3+ "
+             "joined datasets. Does not decide the propagated values DuckDB computes.",
+        note="Known findings: the enumerated fold over a group (list_reduce(list(col))) is input-order dependent (two forms)."),
 }
 
 NA_REASONS = {
